@@ -119,7 +119,7 @@ theorem laidN_stable (arr arr' : Cells α) (n : Node α) :
 
 theorem freezeN_mk (v : Option Nat) (ks : List (α × Node α)) (offset : Nat) (arr : Cells α) :
     freezeN (mk v ks) offset arr = freezeKids ks offset (offset + ks.length) arr := by
-  rw [freezeN]
+  rw [freezeN, gen_freezeLeafOffset]
 
 theorem freezeKids_nil (offset leafOffset : Nat) (arr : Cells α) :
     freezeKids ([] : List (α × Node α)) offset leafOffset arr = some (arr, leafOffset) := by
@@ -262,6 +262,8 @@ theorem bsearch_spec [TotalLT α] (arr : Cells α) (ks : List (α × Node α)) (
     rw [bsearch]
     by_cases hse : start ≤ end_
     · simp only [hse, if_true]
+      have hnn : 0 ≤ start + end_ := by omega
+      rw [gen_bsMid _ _ hnn, gen_bsLeftEnd _ _ hnn, gen_bsRightStart _ _ hnn]
       have hm0 : 0 ≤ (start + end_) / 2 := by omega
       have hm1 : start ≤ (start + end_) / 2 := by omega
       have hm2 : (start + end_) / 2 ≤ end_ := by omega
@@ -332,7 +334,7 @@ theorem frozenLoop_eq [TotalLT α] (arr : Cells α) (q : List α) :
   | nil => intro ks off lo hi pos rl rv _ _ _; simp [frozenLoop, descend]
   | cons c cs ih =>
     intro ks off lo hi pos rl rv hl hs hsub
-    rw [frozenLoop, descend]
+    rw [frozenLoop, descend, gen_bsInitStart, gen_bsInitEnd]
     have hb := bsearch_spec arr ks off lo hi c hl hs (ks.length + 1) 0 ((ks.length : Int) - 1)
       (Int.le_refl _) (by omega) (by omega) (by omega) (fun j p _ hj => by omega) (fun j p hp hj => by
         have := (List.getElem?_eq_some_iff.mp hp).1; omega)
@@ -349,6 +351,7 @@ theorem frozenLoop_eq [TotalLT α] (arr : Cells α) (q : List α) :
       have hsch := hsub _ (find_mem hf)
       simp only at hsch
       rw [Node.eta ch, sorted_mk] at hsch
+      rw [gen_frozenHasValue]
       by_cases hv : ch.val.isSome
       · simp only [hv, if_true]
         exact ih ch.kids o _ _ _ _ _ hlaid hsch.1 hsch.2
@@ -416,6 +419,8 @@ theorem getLongestFrozen_eq [TotalLT α] (f : Frozen α) (root : Node α) (hf : 
   rw [laidN_iff] at hl
   rw [Node.eta root, sorted_mk] at hs
   unfold getLongestFrozen
+  rw [gen_frozenInitIndex]
+  simp only [gen_frozenSuccess]
   rw [hbase, frozenLoop_eq f.cells q root.kids 0 _ hi 0 0 root.val hl hs.1 hs.2, descend_eq,
     trieGetLongest_eq, best_eq_sub]
   cases sub root.kids q with
